@@ -84,8 +84,12 @@ def build(ctx):
     sch, inc = hgen.gen_headers(ctx, "vs_msg_le.xml")
     sel = ["comp", "grp", "tailc", "nsm"] if ctx.quick else ["prim", "misc", "comp", "grp", "tailc", "nsm", "odd", "nest"]
     stds = ["17"] if ctx.quick else ["11", "17", "20"]
+    # second family (vs_msg2): padded (custom-offset) fields at root and in entries, array/composite/set in the middle or at the end of a block, entries ending in a nested group
+    sch1, inc1 = sch, inc
+    sch2, inc2 = hgen.gen_headers(ctx, "vs_msg2_le.xml")
+    sel2 = ["pad", "arrmid", "lastcomp"] if ctx.quick else ["pad", "arrmid", "lastcomp", "lastset", "cfirst", "cmx", "empty", "gng", "g3", "d3"]
     for std in stds:
-        for mname in sel:
+        for (sch, inc, mname) in [(sch1, inc1, m_) for m_ in sel] + [(sch2, inc2, m_) for m_ in sel2]:
             msg = sch.message(mname)
             g = msggen.MG(sch, msg, G)
             u = ctx.lower("c10_%s_%s" % (sch.ns, mname), g.cpp_prelude() + g.cpp_getset(True) + g.cpp_geom(True, True) + g.cpp_cursor() + cpp_extra(g) + c17.cpp(g) + c05.cpp_traits(g).split("\n")[-2] + "\n",
@@ -100,6 +104,7 @@ def build(ctx):
                                     cap=ctx.q(300, 900), backends=["minisat", "kissat"], meta={"big_loops": ["ref_walk_%s.%d" % (mname, x) for x in range(16)]},
                                     desc="%s.%s: %s on a view bound to malloc(n), every n in 0..%d: handler invoked or no out-of-bounds access; no spurious handler when the image fits" % (sch.ns, mname, a[0], nmax),
                                     bounds={"NMAX": nmax, "G": G, "D": D, "E": E, "std": "c++" + std}))
+    sch, inc = sch1, inc1
     # hostile group header: blockLength and numInGroup of a flat group are ANY uint16 values, the view is short, the entry index is any valid index
     msgg = sch.message("grp")
     gg = msggen.MG(sch, msgg, 2)
